@@ -156,6 +156,9 @@ def settings_reads(fn):
         if not is_ref_to(n.get("obj"), sdecl):
             continue
         leaves = concat_leaves(n["args"][0])
+        if len(leaves) == 1:
+            # the key is a parameter of a spliced accessor (intOption(settings, group + "/key", dflt)): what the caller passed
+            leaves = concat_leaves(deref_local(fn, n["args"][0]))
 
         def text_of(x):
             # constant text of a piece, through Qt string wrappers and parameters of a spliced accessor lambda
@@ -191,11 +194,20 @@ def settings_reads(fn):
         conv = (p.get("callee") or "").split("::")[-1] if p is not None and p.get("k") == "call" and p.get("ck") == "member" and skip_copies(p.get("obj")).get("id") == base["id"] else None
         var = None
         top = p if conv else base
+        # the whole read (value + conversion) sits in a spliced helper - intOption(settings, group + "/key", dflt): the value the caller sees is the
+        # helper's result, whatever it does with a missing / zero / malformed setting
+        outer = None
+        for a in fn.ancestors(top):
+            if a.get("k") == "call" and a.get("inl_body") is not None:
+                outer = a
+        inner = None
+        if outer is not None and outer.get("id") != top.get("id"):
+            inner, top = top, outer
         for a in fn.ancestors(top):
             if a.get("k") == "decl":
                 var = a["vars"][0]["decl"]
                 break
-        out[key] = {"node": n, "default": dv, "conv": conv, "var": var, "expr": top}
+        out[key] = {"node": n, "default": dv, "conv": conv, "var": var, "expr": top, "inner": inner}
     return out
 
 
@@ -226,7 +238,9 @@ def ini_rules(ck, fn):
         t = CONV.get(r["conv"])
         ck.ob("C19-O1", sitestr(fn, r["node"]), t == d["type"], "'%s' read as %s (documented %s)" % (key, t, d["type"]), key="ini|type|%s" % key)
         if d["default"] is not None:
-            ck.ob("C19-O1", sitestr(fn, r["node"]), r["default"] == d["default"], "'%s' default %s (documented %s)" % (key, r["default"], d["default"]), key="ini|default|%s" % key)
+            # a read inside a helper that supplies the default itself (no default argument at the value() call) is not a wrong default
+            okd = r["default"] == d["default"]
+            ck.ob("C19-O1", sitestr(fn, r["node"]), okd if (okd or r["default"] is not None or r.get("inner") is None) else None, "'%s' default %s (documented %s)" % (key, r["default"], d["default"]), key="ini|default|%s" % key)
     for key in sorted(docs):
         if key not in reads:
             why = BUILD_OPTION_KEYS.get(key)
@@ -368,13 +382,19 @@ def ini_rules(ck, fn):
                 continue
             init_ = dv_[0]["init"]
             rid_ = reads[key_]["expr"]["id"]
-            if skip_copies(init_).get("id") == rid_:
+            inner_ = reads[key_].get("inner")
+            if inner_ is not None:
+                # evaluate the helper itself: the leaf is the read inside it (same source position in the helper's own body)
+                pos_ = (inner_.get("l"), inner_.get("c"), inner_.get("callee"))
+                rid_ = None
+            if inner_ is None and skip_copies(init_).get("id") == rid_:
                 ck.ob("C19-O2", sitestr(fn, reads[key_]["node"]), True, "%s reaches the sink as read" % key_, key="ini|value|%s" % key_)
                 continue
             wrong = []
             try:
                 for v in (-5, -1, 0, 1, 2, 5, 1024, 1048576):
-                    got = Conc(F, leaf=lambda n_, env_, v=v: v if n_.get("id") == rid_ else None).eval(init_, {"__fn__": fn})
+                    got = Conc(F, leaf=lambda n_, env_, v=v: v if (rid_ is not None and n_.get("id") == rid_) or
+                               (inner_ is not None and n_.get("k") == "call" and (n_.get("l"), n_.get("c"), n_.get("callee")) == pos_) else None).eval(init_, {"__fn__": fn})
                     if not isinstance(got, int) or cls_of(got) != cls_of(v):
                         wrong.append("%s = %d reaches the sink as %s" % (key_, v, got))
             except Unknown as e_:
